@@ -7452,7 +7452,15 @@ pub(crate) fn eval(env: &mut Env, session: &Session) -> Result<Value, EvalError>
             if env.current_frame().caller_expr_id.is_some()
                 && env.stop_at_expr_id == env.current_frame().caller_expr_id
             {
+                let caller_uses_value = env.current_frame().caller_uses_value;
                 env.stack.0.pop();
+
+                // Leave the value on the caller's value stack, as we
+                // do when stopping at any other expression, so the
+                // caller's stack frame can still be resumed.
+                if caller_uses_value {
+                    env.push_value(return_value.clone());
+                }
                 return Ok(return_value);
             }
 
